@@ -98,3 +98,21 @@ def fixedLenInsert (fixed : Nat) (targets : List Nat) (i : Int) (x : Nat) : Exce
   if fixed ≠ 0 ∧ targets.length ≥ fixed then .error .typeError else .ok (attrInsert targets i x)
 
 end Capella.CoupledList
+
+namespace Capella.CoupledList
+
+/-- one iteration of the repaired `DirectProxyAccessor.__set__` loop: `if list[i] is v: continue`,
+else `self.insert(list, i, v)` — lxml *moves* `v` when it already is a child further down -/
+def assignStep (kids : List Child) (i : Nat) (x : Nat) : List Child :=
+  if (view kids)[i]? = some x then kids else insertChild (deleteChild kids x) (i : Int) x
+
+def assignLoop (kids : List Child) : Nat → List Nat → List Child
+  | _, [] => kids
+  | i, x :: xs => assignLoop (assignStep kids i x) (i + 1) xs
+
+/-- `DirectProxyAccessor.__set__` for a list (as repaired): delete the members that are not part of the
+new value, then put every new member in its place. This is also what `lst[i] = x` runs. -/
+def assign (kids : List Child) (new : List Nat) : List Child :=
+  assignLoop (kids.filter (fun c => !c.2 || new.contains c.1)) 0 new
+
+end Capella.CoupledList
